@@ -107,6 +107,9 @@ func panicSites(c *Check, fn *ssa.Function) []panicSite {
 	x := c.P.Ex(fn)
 	for _, b := range fn.Blocks {
 		for _, ins := range b.Instrs {
+			if c.P.IsClone(ins) {
+				continue
+			}
 			switch v := ins.(type) {
 			case *ssa.Panic:
 				out = append(out, panicSite{fn, "panic", "panic(" + trunc(x.E(v.X).String()) + ")", v.Pos(), v})
@@ -255,7 +258,7 @@ func c15(c *Check) {
 			if !inScope(caller) || len(caller.Blocks) == 0 {
 				continue
 			}
-			for _, cs := range c.P.CallsIn(caller) {
+			for _, cs := range c.P.CallsInOwn(caller) {
 				if c.P.resolveCallee(cs.Ins.Common()) == ntp {
 					a := c.P.ArgExprs(cs)
 					if a[1].Op != "list" || len(a[1].Args) < 1 {
